@@ -172,7 +172,78 @@ fn all_entries(t: &[u8]) -> Vec<&'static str> {
             let _ = sonic_rs::get(&st, &["a"]).map(|v| v.as_raw_str().len());
         }
     });
+    ep!("outlive", outlive(t, &mut bad));
     bad
+}
+
+/// results whose type lets them outlive the iterator / deserializer that produced them (keys of the object iterators, borrowed
+/// strings of typed deserialization) must still read the same after it is dropped (the allocator overwrites freed memory)
+fn outlive(t: &[u8], bad: &mut Vec<&'static str>) {
+    let Ok(s) = std::str::from_utf8(t) else { return };
+    macro_rules! keys_after {
+        ($name:expr, $iter:expr) => {{
+            let mut it = $iter;
+            let mut kept: Vec<std::borrow::Cow<str>> = Vec::new();
+            let mut copy: Vec<Vec<u8>> = Vec::new();
+            for x in &mut it {
+                match x {
+                    Ok((k, _v)) => {
+                        copy.push(k.as_bytes().to_vec());
+                        kept.push(k);
+                    }
+                    Err(_) => break,
+                }
+            }
+            drop(it);
+            if kept.iter().map(|k| k.as_bytes()).ne(copy.iter().map(|k| &k[..])) {
+                bad.push($name);
+            }
+        }};
+    }
+    let f = faststr::FastStr::new(s);
+    let b = bytes::Bytes::copy_from_slice(t);
+    let st = s.to_string();
+    keys_after!("dangling-keys:to_object_iter(&FastStr)", sonic_rs::to_object_iter(&f));
+    keys_after!("dangling-keys:to_object_iter(&Bytes)", sonic_rs::to_object_iter(&b));
+    keys_after!("dangling-keys:to_object_iter(&String)", sonic_rs::to_object_iter(&st));
+    keys_after!("dangling-keys:to_object_iter(&str)", sonic_rs::to_object_iter(s));
+    keys_after!("dangling-keys:to_object_iter_unchecked(&FastStr)", unsafe { sonic_rs::to_object_iter_unchecked(&f) });
+    let e: [&str; 0] = [];
+    if let Some(it) = sonic_rs::get(&f, &e).ok().and_then(|lv| lv.into_object_iter()) {
+        keys_after!("dangling-keys:get(&FastStr).into_object_iter", it);
+    }
+    if let Some(it) = sonic_rs::get(&b, &e).ok().and_then(|lv| lv.into_object_iter()) {
+        keys_after!("dangling-keys:get(&Bytes).into_object_iter", it);
+    }
+    if let Some(it) = sonic_rs::from_str::<LazyValue>(s).ok().and_then(|lv| lv.into_object_iter()) {
+        keys_after!("dangling-keys:from_str<LazyValue>.into_object_iter", it);
+    }
+    // typed values borrowing from the input of a Deserializer built from a carrier
+    macro_rules! typed_after {
+        ($name:expr, $de:expr) => {{
+            use serde::Deserialize;
+            let mut de = $de;
+            if let Ok(v) = <std::collections::BTreeMap<&str, std::borrow::Cow<str>>>::deserialize(&mut de) {
+                let copy: Vec<(Vec<u8>, Vec<u8>)> = v.iter().map(|(k, x)| (k.as_bytes().to_vec(), x.as_bytes().to_vec())).collect();
+                drop(de);
+                if v.iter().map(|(k, x)| (k.as_bytes(), x.as_bytes())).ne(copy.iter().map(|(k, x)| (&k[..], &x[..]))) {
+                    bad.push($name);
+                }
+            }
+            let mut de = $de;
+            if let Ok(v) = <&str>::deserialize(&mut de) {
+                let copy = v.as_bytes().to_vec();
+                drop(de);
+                if v.as_bytes() != &copy[..] {
+                    bad.push($name);
+                }
+            }
+        }};
+    }
+    typed_after!("dangling-borrow:Deserializer::from_json(&FastStr)", sonic_rs::Deserializer::from_json(&f));
+    typed_after!("dangling-borrow:Deserializer::from_json(&Bytes)", sonic_rs::Deserializer::from_json(&b));
+    typed_after!("dangling-borrow:Deserializer::from_json(&String)", sonic_rs::Deserializer::from_json(&st));
+    typed_after!("dangling-borrow:Deserializer::from_str", sonic_rs::Deserializer::from_str(s));
 }
 
 pub fn run_case(t: &[u8]) -> String {
@@ -187,7 +258,8 @@ pub fn run_case(t: &[u8]) -> String {
         drop(sonic_rs::verif::take_arenas_freed());
         b
     });
-    let leak = LIVE.load(Ordering::SeqCst) - live0;
+    // (the list of failing entry points was allocated inside the counted region and is still alive)
+    let leak = LIVE.load(Ordering::SeqCst) - live0 - (bad.capacity() * std::mem::size_of::<&'static str>()) as isize;
     // the same input ending at / starting after an unmapped page
     for at_end in [true, false] {
         let g = Guarded::new(t, at_end);
@@ -352,6 +424,13 @@ pub fn gen(seed: u64, thorough: bool) {
     ];
     for t in fixed {
         out.line(&format!("c01 {}", hex(t)));
+    }
+    // short and long documents whose keys / strings may be kept after the iterator or deserializer is gone
+    // (a FastStr of up to 24 bytes stores its bytes inline: a clone is a copy)
+    for t in ["{\"k\":1}", "{\"kkkk\":1,\"mmmm\":2}", "{\"a\":\"b\",\"c\":\"d\"}", "{\"k\": \"v\\\\w\"}", "\"hello-world-0123\"", "\"h\"",
+        "{\"a-long-key-of-some-length\":\"a-long-value-of-some-length\",\"another-key\":\"another-value\",\"esc\\nkey\":\"x\"}",
+        "{\"a\":{\"b\":1},\"c\":[1,2],\"dddddddddddddddddddddddddddddddddd\":null}", "\"a string that is longer than twenty-four bytes\""] {
+        out.line(&format!("c01 {}", hex(t.as_bytes())));
     }
     // strings and tokens of every length around the vector and page sizes
     let lens: Vec<usize> = if thorough { (0..=200).chain([255, 256, 257, 1023, 1024, 1025, 4094, 4095, 4096, 4097, 8191, 8192, 8193]).collect() } else { (0..=70).chain([127, 128, 129, 255, 256, 257, 4095, 4096, 4097]).collect() };
